@@ -57,7 +57,7 @@ func vfWasmLoad(name string) int {
 		panic(err)
 	}
 	in := &vfWasmInstT{}
-	in.rt = wazero.NewRuntime(ctx)
+	in.rt = wazero.NewRuntimeWithConfig(ctx, wazero.NewRuntimeConfigInterpreter())
 	compiled, err := in.rt.CompileModule(ctx, b)
 	if err != nil {
 		panic(err)
